@@ -138,7 +138,8 @@ class Seq:
         return hash(self.parts)
 
     def __repr__(self):
-        return ("b" if self.kind == "bytes" else "") + "[" + ", ".join(show_part(p) for p in self.parts) + "]"
+        inner = ", ".join(show_part(p) for p in self.parts)
+        return f"cat({inner})" if self.kind == "bytes" else f"[{inner}]"
 
 
 class Tup:
@@ -157,9 +158,9 @@ def show_part(p) -> str:
     if p[0] == "acc":
         return f"<{p[1]}>"
     if p[0] == "rep":
-        return f"rep({p[1]}: " + ", ".join(show_part(x) for x in p[2]) + ")"
+        return f"rep({p[1]}, " + ", ".join(show_part(x) for x in p[2]) + ")"
     if p[0] == "if":
-        return f"if({p[1]}: " + ", ".join(show_part(x) for x in p[2]) + " | " + ", ".join(show_part(x) for x in p[3]) + ")"
+        return f"when({p[1]!r}, [" + ", ".join(show_part(x) for x in p[2]) + "], [" + ", ".join(show_part(x) for x in p[3]) + "])"
     return repr(p)
 
 
@@ -248,7 +249,7 @@ def show_effect(e) -> str:
     if e[0] == "rep":
         return f"rep({e[1]}: {show_effects(e[2])})"
     if e[0] == "if":
-        return f"if({e[1]}: {show_effects(e[2])} | {show_effects(e[3])})"
+        return f"when({e[1]}: {show_effects(e[2])} | {show_effects(e[3])})"
     return " ".join(str(x) for x in e)
 
 
@@ -265,7 +266,8 @@ def flat_effects(effects, inside=()):
 
 
 class Summariser:
-    def __init__(self, fn: ast.FunctionDef, params: dict | None = None):
+    def __init__(self, fn: ast.FunctionDef, params: dict | None = None, consts: dict | None = None):
+        self.consts = consts or {}
         self.fn = fn
         self.loop_id = 0
         self.params = params or {}
@@ -278,6 +280,9 @@ class Summariser:
         env = {}
         for a in self.fn.args.args + self.fn.args.kwonlyargs:
             env[a.arg] = self.params.get(a.arg, Term(a.arg))
+        for name, expr in self.consts.items():  # module-level literals the function refers to by name
+            if name not in env:
+                env[name] = self.ev(expr, {})
         tree = self.block(self.fn.body, State(env, []))
         paths = []
 
@@ -340,10 +345,15 @@ class Summariser:
                     work.append(self._specialise(q, ctext, branch))
             else:
                 work.append(self._specialise(p, ctext, d))
+        feasible = []
         for p in out:
-            p.conds = tuple(sorted(set(p.conds)))
-        out.sort(key=lambda p: (p.conds, p.kind, p.value or ""))
-        return out
+            conds = _intervals(set(p.conds))
+            if conds is None:
+                continue  # contradictory integer constraints: the path cannot be taken
+            p.conds = tuple(sorted(conds))
+            feasible.append(p)
+        feasible.sort(key=lambda p: (p.conds, p.kind, p.value or ""))
+        return feasible
 
     def _texts(self, p):
         yield p.value or ""
@@ -408,12 +418,32 @@ class Summariser:
     # ------------------------------------------------------------------ conditions
     def cond(self, test, env):
         """(atoms if true, atoms if false, display text)."""
-        txt = self.canon(test, env)
+        txt = self.canon(self._lengths(test, env), env)
         try:
             parsed = ast.parse(txt, mode="eval").body
-            return sorted(cnd.canon(parsed, True)), sorted(cnd.canon(parsed, False)), txt
         except SyntaxError:
             return [(txt, True)], [(txt, False)], txt
+        cnd.EMPTINESS[0] = False
+        try:
+            return sorted(cnd.canon(parsed, True)), sorted(cnd.canon(parsed, False)), txt
+        finally:
+            cnd.EMPTINESS[0] = True
+
+    def _lengths(self, test, env):
+        """`if xs:` / `if not xs:` on a sequence value is a test of its length."""
+        def is_seq(n):
+            return isinstance(n, ast.Name) and isinstance(env.get(n.id), Seq)
+
+        def as_len(n):
+            return ast.Compare(left=ast.Call(func=ast.Name(id="len", ctx=ast.Load()), args=[n], keywords=[]), ops=[ast.GtE()], comparators=[ast.Constant(value=1)])
+
+        if is_seq(test):
+            return as_len(test)
+        if isinstance(test, ast.UnaryOp) and isinstance(test.op, ast.Not):
+            return ast.UnaryOp(op=ast.Not(), operand=self._lengths(test.operand, env))
+        if isinstance(test, ast.BoolOp):
+            return ast.BoolOp(op=test.op, values=[self._lengths(v, env) for v in test.values])
+        return test
 
     @staticmethod
     def cond_text(atoms) -> str:
@@ -436,12 +466,24 @@ class Summariser:
             if st.__class__.__name__ == "InlineBlock":
                 # body of an inlined helper (sa.inline): part of this statement list unless it leaves early
                 if any(x.__class__.__name__ == "LeaveBlock" for x in ast.walk(st)):
-                    raise Unsupported("inlined helper with early exits")
+                    if self.depth > 0:
+                        raise Unsupported("inlined helper with early exits inside a loop")
+                    inner = self.block(list(st.body), state)
+                    return self._resume(inner, stmts[i + 1:])
                 return self.block(list(st.body) + list(stmts[i + 1:]), state)
             state = self.stmt(st, state)
             if state.term is not None:
                 return Leaf(state)
         return Leaf(state)
+
+    def _resume(self, tree, rest):
+        """Continue after an inlined helper: paths that left the helper (LeaveBlock) or fell off its end go on."""
+        if isinstance(tree, Leaf):
+            if tree.state.term in (None, "leave"):
+                tree.state.term = None
+                return self.block(rest, tree.state)
+            return tree
+        return Node(tree.cond, self._resume(tree.t, rest), self._resume(tree.f, rest))
 
     def _all_live(self, tree) -> bool:
         if isinstance(tree, Leaf):
@@ -611,6 +653,9 @@ class Summariser:
         if isinstance(st, ast.Continue):
             state.term = "continue"
             return state
+        if st.__class__.__name__ == "LeaveBlock":
+            state.term = "leave"
+            return state
         if isinstance(st, (ast.For, ast.While)):
             return self.loop(st, state)
         if isinstance(st, ast.With):
@@ -664,7 +709,7 @@ class Summariser:
                 step = args[2] if len(args) > 2 else Poly.const(1)
                 if step == Poly.const(1):
                     count = stop - start
-                    header = f"#({count})"  # counted loop: the spelling of the range does not matter
+                    header = f"times({count})"  # counted loop: the spelling of the range does not matter
                 else:
                     count = Poly.sym(f"count({start}, {stop}, {step})")
                     header = "range(" + ", ".join(str(a) for a in args) + ")"
@@ -675,7 +720,7 @@ class Summariser:
             elif isinstance(it, ast.Call) and isinstance(it.func, ast.Name) and it.func.id == "enumerate" and isinstance(st.target, ast.Tuple) and len(st.target.elts) == 2 and all(isinstance(e, ast.Name) for e in st.target.elts):
                 base = self.canon(it.args[0], env)
                 off = self.poly(it.args[1], env) if len(it.args) > 1 else Poly.const(0)
-                header = base
+                header = f"each({base})"
                 count = Poly.sym(f"len({base})")
                 inner = self.ev(it.args[0], env)
                 bind[st.target.elts[0].id] = off + idx
@@ -687,7 +732,7 @@ class Summariser:
                     it = it.args[0]  # iterating a snapshot visits the same elements in the same order
                     view = it.func.attr if isinstance(it, ast.Call) and isinstance(it.func, ast.Attribute) and it.func.attr in ("values", "items", "keys") and not it.args and not it.keywords else None
                 base = self.canon(it.func.value if view else it, env)
-                header = base
+                header = f"each({base})"
                 count = Poly.sym(f"len({base})")
                 inner = self.ev(it, env) if not view else Term(base)
                 elem = self._element(inner, base, k)
@@ -792,11 +837,11 @@ class Summariser:
         env2.update(bind)
         if test is not None:
             ct, _, _ = self.cond(test, env2)
-            header = "while " + self.cond_text(ct)
+            header = "loop(" + repr(self.cond_text(ct)) + ")"
             solved = self._solve_count(test, env2, k)
             if solved is not None:
                 count = solved
-                header = f"#({count})"
+                header = f"times({count})"
         m2 = run_body(env2)
         out = dict(env)
         for v, d in induction.items():
@@ -1076,9 +1121,64 @@ class Summariser:
         raise Unsupported(f"expression {type(n).__name__}")
 
 
-def summarise(fn: ast.FunctionDef, params: dict | None = None):
+def _intervals(conds):
+    """Integer constraints on one expression (`X < k`, `X == k`, lengths are >= 0) as a canonical interval:
+    `n == 0 / n > 1 / else` and `n >= 2 / n == 1 / else` describe the same three cases.  None if contradictory."""
+    import re
+
+    groups: dict = {}
+    rest = set()
+    for t, pol in conds:
+        m = re.match(r"^(.*) (<|==) (-?\d+)$", t)
+        if m and not t.startswith("ALL["):
+            groups.setdefault(m.group(1), []).append((m.group(2), int(m.group(3)), pol))
+        else:
+            rest.add((t, pol))
+    for x, cs in groups.items():
+        lo = 0 if x.startswith("len(") else None
+        natural = lo
+        hi = None
+        holes = set()
+        for kind, k, pol in cs:
+            if kind == "<" and pol:
+                hi = k - 1 if hi is None else min(hi, k - 1)
+            elif kind == "<":
+                lo = k if lo is None else max(lo, k)
+            elif pol:
+                lo = k if lo is None else max(lo, k)
+                hi = k if hi is None else min(hi, k)
+            else:
+                holes.add(k)
+        changed = True
+        while changed:
+            changed = False
+            for h in sorted(holes):
+                if lo is not None and h == lo:
+                    lo += 1
+                    holes.discard(h)
+                    changed = True
+                elif hi is not None and h == hi:
+                    hi -= 1
+                    holes.discard(h)
+                    changed = True
+        if lo is not None and hi is not None and lo > hi:
+            return None
+        if lo is not None and hi is not None and lo == hi:
+            rest.add((f"{x} == {lo}", True))
+        else:
+            if lo is not None and lo != natural:
+                rest.add((f"{x} < {lo}", False))
+            if hi is not None:
+                rest.add((f"{x} < {hi + 1}", True))
+        for h in holes:
+            if (lo is None or h > lo) and (hi is None or h < hi):
+                rest.add((f"{x} == {h}", False))
+    return rest
+
+
+def summarise(fn: ast.FunctionDef, params: dict | None = None, consts: dict | None = None):
     """[Path] of the function."""
-    return Summariser(fn, params).run()
+    return Summariser(fn, params, consts).run()
 
 
 def describe(paths) -> str:
